@@ -3,7 +3,9 @@
 (seeded/<Cxx>-<V>/patch.diff) through the quick tier of its property's check, each in a scratch worktree of /repo
 (selftest.sh), and write sensitivity.json + sensitivity.md. Also runs every check once on the unchanged tree.
 
-usage: sweep.py [-j N] [--only C08,C19] [--no-clean]
+usage: sweep.py [-j N] [--only C08,C19] [--no-clean] [--resume LOG [--rerun C02,C16]]
+--resume takes the results already printed in the log of an interrupted sweep (same /repo HEAD) and runs only what is
+missing there; --rerun drops the cached results of the named properties (their checks changed since).
 """
 import glob, json, os, re, subprocess, sys, time
 from concurrent.futures import ThreadPoolExecutor
@@ -13,6 +15,8 @@ args = sys.argv[1:]
 J = 3
 only = None
 clean = True
+resume = None
+rerun = set()
 i = 0
 while i < len(args):
     if args[i] == '-j':
@@ -21,6 +25,10 @@ while i < len(args):
         only = set(args[i + 1].split(',')); i += 2
     elif args[i] == '--no-clean':
         clean = False; i += 1
+    elif args[i] == '--resume':
+        resume = args[i + 1]; i += 2
+    elif args[i] == '--rerun':
+        rerun = set(args[i + 1].split(',')); i += 2
     else:
         i += 1
 
@@ -38,11 +46,28 @@ if only:
     jobs = [j for j in jobs if j[0] in only]
 
 
+cached = {}
+if resume:
+    import ast
+    for line in open(resume, errors='replace'):
+        m = re.match(r'(C\d\d) (mutant|seeded) (\S+): exit=(-?\d+) (\[.*\]) \((\d+) s\)', line)
+        if m and m.group(1) not in rerun:
+            try:
+                sigs = ast.literal_eval(m.group(5))
+            except Exception:
+                sigs = []
+            cached[(m.group(1), m.group(2), m.group(3))] = {'property': m.group(1), 'kind': m.group(2), 'name': m.group(3), 'exit': int(m.group(4)),
+                                                             'caught': int(m.group(4)) == 1, 'first_violations': sigs, 'wall_s': int(m.group(6))}
+    print('resuming:', len(cached), 'results taken from', resume, flush=True)
+
+
 def run(job):
     pid, kind, name, patch = job
+    if (pid, kind, name) in cached:
+        return cached[(pid, kind, name)]
     t0 = time.time()
     env = dict(os.environ, SELFTEST_LINES='6')
-    r = subprocess.run([os.path.join(ROOT, 'selftest.sh'), pid, patch], capture_output=True, text=True, env=env, cwd=ROOT)
+    r = subprocess.run([os.path.join(ROOT, 'selftest.sh'), pid, patch], capture_output=True, text=True, errors='replace', env=env, cwd=ROOT)
     out = r.stdout + r.stderr
     m = re.search(r'exit=(\d+)', out)
     code = int(m.group(1)) if m else -1
@@ -77,7 +102,7 @@ if clean and not only:
         t0 = time.time()
         out_dir = f'/tmp/sweep-clean-{pid}'
         env = dict(os.environ, VERIF_OUT=out_dir)
-        r = subprocess.run([os.path.join(ROOT, 'check'), pid, 'quick'], capture_output=True, text=True, env=env, cwd=ROOT)
+        r = subprocess.run([os.path.join(ROOT, 'check'), pid, 'quick'], capture_output=True, text=True, errors='replace', env=env, cwd=ROOT)
         cleanres.append({'property': pid, 'exit': r.returncode, 'wall_s': round(time.time() - t0),
                          'known_findings': len(re.findall(r'^KNOWN-FINDING', r.stdout, re.M))})
         print(f"clean {pid}: exit={r.returncode} ({cleanres[-1]['wall_s']} s)", flush=True)
